@@ -396,3 +396,73 @@ def check_statement_boundaries(ck, ctx, rule="O-split"):
                 ck.ob(rule, key, ok, "a statement hands over exactly its own text (or nothing, for skipped / SET / blank lines) and leaves the "
                       "line machine as at the start of the script" + ("" if ok else "; " + detail), "Parser.process_line (evaluated abstractly)")
     ck.count("statement_boundary_instances", n)
+
+
+# ---- string literals through the line pre-processing (C07) ---------------------------------------------------------
+LITERALS = collections.OrderedDict([
+    ("plain word", ["'abc'", "'X1'", "'k_2'"]),
+    ("mixed case word", ["'MiXed'", "'aBc'", "'Null'"]),
+    ("blank inside", ["'a b'", "'x  y'", "'the id'"]),
+    ("leading / trailing blank", ["' a'", "'b '", "' c '"]),
+    ("comma", ["'a,b'", "'1,2,3'", "','"]),
+    ("comma and blank", ["'a, b'", "'x , y'", "'p,  q'"]),
+    ("opening parenthesis", ["'a(b'", "'('", "'f (x'"]),
+    ("closing parenthesis", ["'a)b'", "')'", "'x) y'"]),
+    ("parentheses", ["'f(x)'", "'()'", "'a (b) c'"]),
+    ("equals sign", ["'a=b'", "'k=v'", "'x=1'"]),
+    ("spaced equals sign", ["'a = b'", "'k =v'", "'x= 1'"]),
+    ("semicolon", ["'a;b'", "'x; y'", "';'"]),
+    ("semicolon at the end", ["'a;'", "'x y;'", "'1;'"]),
+    ("double dash", ["'a--b'", "'--'", "'x -- y'"]),
+    ("block comment markers", ["'a/*b*/'", "'/* x */'", "'p /* q'"]),
+    ("hash", ["'a # b'", "'#x'", "'no. #1'"]),
+    ("keyword-shaped words", ["'CREATE'", "'not null'", "'Default'"]),
+    ("statement word first", ["'SET x'", "'GO'", "'create table'"]),
+    ("non-ASCII letters", ["'été'", "'über'", "'日本'"]),
+    ("doubled quote", ["'it''s'", "'a''b'", "''''"]),
+    ("double-quoted with blank", ['"a b"', '"x y"', '"the id"']),
+    ("dot", ["'a.b'", "'1.5'", "'x . y'"]),
+    ("colon and slash", ["'s3://b/k'", "'a:b'", "'/x/y'"]),
+    ("tab inside", ["'a\tb'", "'x\ty'", "'\t'"]),
+    ("digits only", ["'123'", "'007'", "'0'"]),
+])
+LITERAL_SCRIPTS = collections.OrderedDict([
+    ("DEFAULT, own line", "CREATE TABLE t (\n  a varchar(10) DEFAULT {L},\n  b int\n);\n"),
+    ("COMMENT, own line", "CREATE TABLE t (\n  a int COMMENT {L},\n  b int\n);\n"),
+    ("DEFAULT, one-line statement", "CREATE TABLE t (a varchar DEFAULT {L}, b int);\n"),
+    ("table option, last line", "CREATE TABLE t (\n  a int\n) COMMENT={L};\n"),
+])
+
+
+def check_literals(ck, ctx, rule="O-literal"):
+    """the characters of a quoted literal reach the grammar exactly as written: the script is formed into lines and run through the
+    line machine (both evaluated abstractly); the one statement handed over must contain the literal verbatim"""
+    lm = LineMachine(ctx)
+    n = 0
+    for lname, lits in LITERALS.items():
+        fails = []
+        for sname, tmpl in LITERAL_SCRIPTS.items():
+            n += 1
+            texts = [tmpl.replace("{L}", l) for l in lits]
+            for i, (text, lit) in enumerate(zip(texts, lits)):
+                # exemplar by exemplar: literals of one class need not be treated in lock step (blank counts differ)
+                try:
+                    lines, st = lm.form_lines(text)
+                    handed = []
+                    for k, ln in enumerate(lines):
+                        p, st = lm.step(st, ln, k != len(lines) - 1)
+                        handed += list(p)
+                except (PyRaise, Raised) as e:
+                    fails.append((sname, text, f"{lit}: raises {e}"))
+                    break
+                except (NonUniform, LexUnknown) as e:
+                    raise AnalysisError(f"O-literal {lname} ({sname}): {e}")
+                if len(handed) != 1 or not isinstance(handed[0], str) or lit not in handed[0]:
+                    fails.append((sname, text, f"{lit} reaches the grammar as {handed!r}"))
+                    break
+        ok = not fails
+        ck.ob(rule, f"literal with {lname}" if not lname.endswith("word") and not lname.endswith("words") else f"literal: {lname}", ok,
+              "the literal must reach the grammar verbatim, inside one statement" +
+              ("" if ok else f"; in {len(fails)} of {len(LITERAL_SCRIPTS)} positions ({', '.join(f[0] for f in fails)}): {fails[0][2]}"),
+              "Parser.pre_process_data / parse_data / process_line (evaluated abstractly)", witness=None if ok else repr(fails[0][1])[:160])
+    ck.count("literal_instances", n)
